@@ -25,7 +25,7 @@ LEVEL = "exploration"
 TIMEOUT = {"quick": 1500, "thorough": 7200}
 RULE = (
     "histories of 5-12 (quick) / up to 30 (thorough) steps drawn from {derive, compute subset, store/to_zarr (eager|lazy, "
-    "path|existing array) of any pool member, re-compute, change default executor, and (6%) the motif compute m / compute m with resume / save m to a new path / compute a dependent with resume}; 30% of computes and 12% of stores pass resume=True; pool built by vlib.gen.Gen; half of "
+    "path|existing array) of any pool member, re-compute, change default executor, (6%) the motif compute m / compute m with resume / save m to a new path / compute a dependent with resume, and (6%) the motif: derive a never-computed shared ancestor, compute its first reader optimised (ancestor fused away), compute both readers with resume, compute their sum unoptimised with resume}; 30% of computes and 12% of stores pass resume=True; pool built by vlib.gen.Gen; half of "
     "the histories use the global default configuration (spec=None). An evaluation = one history step followed by its "
     "checks; non-trivial = the step came after at least one store/to_zarr or compute of a related array; distinct by hash "
     "of (history prefix)"
@@ -262,6 +262,37 @@ class History:
             sub.append(self.step_compute(viols, label="motif-after", pick=pick, force={"resume": True}))
         return {"step": "motif", "member": m, "sub": sub}
 
+    def step_motif_shared(self, viols):
+        """x' = x + 1 (never computed); y = -x'; compute y optimised (x' is fused away, never written); z = x' * 2;
+        compute (y, z) with resume; w = y + z computed unoptimised with resume. A resume that trusts or skips the
+        shared, unmaterialised ancestor x' shows as wrong values of z or w."""
+        cands = [i for i in self.members() if self.g._vals[i].dtype.kind in "if" and self.g._vals[i].size > 0]
+        if not cands:
+            return {"step": "motif-shared", "ok": False}
+        x = self.rng.choice(cands)
+        before = len(self.g._nodes)
+        try:
+            x1 = self.g._add({"op": "add", "in": [x], "p": {"scalar": 1}})
+            y = self.g._add({"op": "negative", "in": [x1], "p": {}}) if x1 is not None else None
+        except Exception:
+            x1 = y = None
+        if x1 is None or y is None or not self._build_new():
+            del self.g._nodes[before:]
+            for k in list(self.g._vals):
+                if k >= before:
+                    del self.g._vals[k]
+            return {"step": "motif-shared", "ok": False}
+        sub = [self.step_compute(viols, label="shared-first-reader", pick=[y], force={"resume": False, "optimize_graph": True})]
+        z = self.g._add({"op": "multiply", "in": [x1], "p": {"scalar": 2}})
+        if z is None or not self._build_new():
+            return {"step": "motif-shared", "ok": False, "sub": sub}
+        if not viols:
+            sub.append(self.step_compute(viols, label="shared-both-readers-resume", pick=[y, z], force={"resume": True, "optimize_graph": self.rng.random() < 0.5}))
+        w = self.g._add({"op": "add", "in": [y, z], "p": {}})
+        if w is not None and self._build_new() and not viols:
+            sub.append(self.step_compute(viols, label="shared-diamond-resume", pick=[w], force={"resume": True, "optimize_graph": False}))
+        return {"step": "motif-shared", "member": x, "sub": sub}
+
     def step_config(self):
         import cubed
 
@@ -310,6 +341,9 @@ def run_history(seed, workdir, maxdim, nsteps, res, use_global):
             if r < 0.06 and t >= 2:
                 s = h.step_motif(viols)
                 res["counters"]["compute_resume_store_resume_motifs"] += 1 if s.get("sub") and len(s["sub"]) == 4 else 0
+            elif r < 0.12 and t >= 1:
+                s = h.step_motif_shared(viols)
+                res["counters"]["shared_ancestor_resume_motifs"] += 1 if s.get("sub") and len(s["sub"]) == 3 else 0
             elif r < 0.35:
                 s = h.step_derive()
             elif r < 0.6:
@@ -345,7 +379,7 @@ def run_history(seed, workdir, maxdim, nsteps, res, use_global):
     return all_viols, h
 
 
-EXTRA = ("compute_resume_store_resume_motifs", "histories", "steps", "store_calls", "stores_of_arrays_with_dependents")
+EXTRA = ("shared_ancestor_resume_motifs", "compute_resume_store_resume_motifs", "histories", "steps", "store_calls", "stores_of_arrays_with_dependents")
 
 
 def run_shard(spec, workdir):
@@ -385,6 +419,7 @@ def finalize(tier, merged):
             ("history steps executed and checked", c.get("steps", 0), 2500 if tier == "quick" else 20000),
             ("store/to_zarr calls inside histories", c.get("store_calls", 0), 400 if tier == "quick" else 3000),
             ("compute / compute(resume) / store / compute(resume) motifs completed", c.get("compute_resume_store_resume_motifs", 0), 60 if tier == "quick" else 450),
+            ("fused-away shared ancestor / second reader / resume motifs completed", c.get("shared_ancestor_resume_motifs", 0), 40 if tier == "quick" else 300),
             ("stores of arrays that other pool members depend on", c.get("stores_of_arrays_with_dependents", 0), 100 if tier == "quick" else 750),
         ],
         "assumptions": ASSUMPTIONS,
